@@ -79,6 +79,13 @@ def mutate_everything(c, schema, ci, classes, rng, depth=2):
         try:
             v = getattr(c, f.name)
         except AttributeError:
+            # an unselected oneof member: assigning it switches the selection OF THE COPY
+            if rng.random() < 0.5:
+                nv = bpgen.gen_field(rng, schema, f, 1)
+                try:
+                    setattr(c, f.name, bpgen.to_py(nv, classes, f.ty))
+                except Exception:
+                    pass
             continue
         if isinstance(v, list):
             item = bpgen.gen_field(rng, schema, bpgen.dataclasses.replace(f, repeated=False), 1)
@@ -105,6 +112,19 @@ def mutate_everything(c, schema, ci, classes, rng, depth=2):
                 setattr(c, f.name, bpgen.to_py(nv, classes, f.ty))
             except Exception:
                 pass
+
+
+def mutate_toplevel(c, schema, ci, classes, rng):
+    """assign top-level attributes of a SHALLOW copy (never mutate a shared container in place):
+    scalars, whole lists / dicts / sub-messages, and other members of oneof groups"""
+    for f in schema[ci].fields:
+        if rng.random() < 0.3:
+            continue
+        nv = bpgen.gen_field(rng, schema, f, 1)
+        try:
+            setattr(c, f.name, bpgen.to_py(nv, classes, f.ty if f.ty != "map" else f.mapV))
+        except Exception:
+            pass
 
 
 def oracle(chk, inp, m, schema, ci, classes, rng, obs_names):
@@ -153,8 +173,17 @@ def oracle(chk, inp, m, schema, ci, classes, rng, obs_names):
             chk.fail("copy-presence-differs:" + cname, inp, repr(presence(c, schema, ci)))
         if cname != "copy":
             mutate_everything(c, schema, ci, classes, rng)
-            if bytes(m) != before["bytes"]:
-                chk.fail("copy-not-independent:" + cname, inp, "%s -> %s" % (before["bytes"].hex(), bytes(m).hex()))
+        else:
+            mutate_toplevel(c, schema, ci, classes, rng)
+        try:
+            now = snapshot(m, schema, ci)
+        except Exception as e:
+            chk.fail("copy-not-independent:" + cname, inp, "original no longer encodable: %r" % e)
+            continue
+        if now["bytes"] != before["bytes"]:
+            chk.fail("copy-not-independent:" + cname, inp, "%s -> %s" % (before["bytes"].hex(), now["bytes"].hex()))
+        if now["presence"] != before["presence"]:
+            chk.fail("copy-not-independent:" + cname, inp, "presence %r -> %r" % (before["presence"], now["presence"]))
 
 
 def make_message(rng, b, v):
